@@ -183,6 +183,7 @@ type Exec struct {
 	anchorIdx map[*ast.IndexExpr]string
 	autoTrig [][]string
 	atStack []string
+	binderSeq int
 }
 
 type resultVar struct {
